@@ -1198,6 +1198,7 @@ class FormatField(Construct):
         if format in "fd":
             assert not bitwise
             return "f%s%s" % (self.length, "le" if swapped else "be", )
+        raise NotImplementedError
 
 
 class BytesInteger(Construct):
